@@ -11,6 +11,7 @@ CONSTANTS
   MaxNil = 0
   MaxReadSkip = 0
   SkipOnSaveFail = TRUE
+  SerialStorage = FALSE
   MaxSteps = 12
   MaxEmptyPops = 2
 INVARIANTS Emit GenInvariants
